@@ -263,7 +263,8 @@ def check(run):
         if gs_st is None or ps_st is None:
             run.violation('R13.embed', f, 'embed', 'embed must write both the strings block and the phases of the small map')
         else:
-            gi = gs_st.targets[0].slice
+            from ..names import deref as _deref
+            gi = _deref(f, gs_st.targets[0].slice)          # the index grid may have been given a name
             ok = isinstance(gi, ast.Call) and norm(gi.func).split('.')[-1] == 'ix_' and len(gi.args) == 2 \
                 and norm(gi.args[0]) == norm(gi.args[1])
             run.check(ok, 'R13.embed', f, gs_st, 'the small map must be written on the square block (mask2 x mask2)')
